@@ -118,6 +118,57 @@ def deref (p : Option Ref) : Except Err Ref :=
   | some r => .ok r
   | none => .error .null
 
+namespace DMem
+variable {α : Type}
+
+/-- read the payload behind a pointer, keeping the pointer -/
+def readCell (m : DMem α) (r : Ref) : Except Err (Ref × α) := do
+  let c ← m.get r
+  pure (r, c.val)
+
+/-- insert-before surgery of `muggle_linked_list_insert`:
+`node->prev->next = new; new->prev = node->prev; new->next = node; node->prev = new;` -/
+def linkBefore (m : DMem α) (node nw : Ref) : Except Err (DMem α) := do
+  let c ← m.get node
+  let p ← deref c.prev
+  let m ← m.setNext p (some nw)             -- node->prev->next = new_node
+  let c ← m.get node
+  let m ← m.setPrev nw c.prev               -- new_node->prev = node->prev
+  let m ← m.setNext nw (some node)          -- new_node->next = node
+  m.setPrev node (some nw)                  -- node->prev = new_node
+
+/-- insert-after surgery of `muggle_linked_list_append` / `muggle_queue_enqueue`:
+`node->next->prev = new; new->next = node->next; new->prev = node; node->next = new;` -/
+def linkAfter (m : DMem α) (node nw : Ref) : Except Err (DMem α) := do
+  let c ← m.get node
+  let n ← deref c.next
+  let m ← m.setPrev n (some nw)             -- node->next->prev = new_node
+  let c ← m.get node
+  let m ← m.setNext nw c.next               -- new_node->next = node->next
+  let m ← m.setPrev nw (some node)          -- new_node->prev = node
+  m.setNext node (some nw)                  -- node->next = new_node
+
+/-- link-at-tail surgery of `muggle_pointer_slot_insert`:
+`p->prev = tail.prev; p->next = &tail; tail.prev->next = p; tail.prev = p;` -/
+def linkTail (m : DMem α) (nw : Ref) : Except Err (DMem α) := do
+  let m ← m.setPrev nw m.tail.prev          -- p_slot->prev = tail.prev
+  let m ← m.setNext nw (some .tail)         -- p_slot->next = &tail
+  let tp ← deref m.tail.prev
+  let m ← m.setNext tp (some nw)            -- tail.prev->next = p_slot
+  m.setPrev .tail (some nw)                 -- tail.prev = p_slot
+
+/-- unlink surgery of `*_free_node` / `muggle_pointer_slot_remove`:
+`node->prev->next = node->next; node->next->prev = node->prev;` -/
+def unlink (m : DMem α) (node : Ref) : Except Err (DMem α) := do
+  let c ← m.get node
+  let p ← deref c.prev
+  let m ← m.setNext p c.next                -- node->prev->next = node->next
+  let c ← m.get node
+  let n ← deref c.next
+  m.setPrev n c.prev                        -- node->next->prev = node->prev
+
+end DMem
+
 /-- element counters of the node pool (`muggle_memory_pool_t`) as far as the
 containers can observe them -/
 structure Pool where
